@@ -281,7 +281,7 @@ def run_case(case, seed):
         cur[0] = label
         with torch.no_grad():
             if mode == 'layer':
-                set_assignment(sels, label['assign'], 0)
+                set_assignment(sels, label['assign'], 0, via=res['states'])
                 moved = sum(1 for p, q in zip(label['assign'], init) if p != q)
             else:
                 for i, (_, m) in enumerate(sels):
@@ -300,8 +300,10 @@ def run_case(case, seed):
             nas.train()
             nas.update_softmax_options(temperature=1.0, hard=True, gumbel=False, disable_sampling=False)
         else:
+            # eval mode: temperature / gumbel must be irrelevant (arg-max selection) - rotate them through the enumeration
             nas.eval()
-            nas.update_softmax_options(temperature=1.0, hard=False, gumbel=False, disable_sampling=False)
+            k = res['states']
+            nas.update_softmax_options(temperature=(1.0, 0.05, 20.0)[k % 3], hard=False, gumbel=(k // 3) % 2 == 1, disable_sampling=False)
         res['states'] += 1
         res['transitions'] += moved
         res['evals'] += 1
